@@ -230,6 +230,7 @@ func (e *Engine) callFn(st *State, x *ssa.Call, fn *ssa.Function, bind []Value, 
 			where := e.pos(x.Pos())
 			e.AssertSites[where]++
 			st.sawAssert = true
+			st.asserts = append(st.asserts, msg)
 			if c.IsConst() {
 				if !c.boolVal() {
 					e.Asserts++
